@@ -712,3 +712,28 @@ func init() {
 		},
 	})
 }
+
+func init() {
+	register(&PropDef{
+		ID:    "C20",
+		Title: "Macro expansion rewrites exactly the macro calls and leaves other code unchanged",
+		Explanation: "Decided, for both interpreters (fast and classic): K1 a node that is not a macro call is rebuilt as in.New() with child i of the output set unconditionally from child i of the input for every i < in.Size() (losslessness of that rebuild is C22's field coverage, run here too); macro calls are expanded only at quasiquote depth <= 0; the depth table QUASIQUOTE +1, UNQUOTE / UNQUOTE_SPLICE -1, QUOTE returns the node unexpanded at depth 0 is as documented and identical in both interpreters; " +
+			"in MacroExpand1 an element that is not a macro call is appended unchanged, a macro with argNum arguments receives elements i+1..i+argNum in order and exactly those are consumed, results are appended in order; MacroExpand repeats until nothing expands; K2 UnwrapTrivialAst removes only ParenExpr, ExprStmt, DeclStmt wrappers and one-element blocks. " +
+			"Not decided: what a user macro returns.",
+		Assumptions: []string{"ast2 wrappers are lossless (C22)"},
+		Rules: []func(*Ctx){func(c *Ctx) {
+			ruleMacroCodewalk(c, "K1-macro-codewalk")
+			ruleUnwrapTrivial(c, "K2-unwrap-trivial")
+			ruleAstWrappers(c)
+			c.Floor("K1-macro-codewalk", 20)
+		}},
+		Mutants: []Mutant{
+			{Name: "unquote-does-not-lower-depth", File: "fast/macroexpand.go", Old: "\t\t\tquasiquoteDepth--\n", New: "\t\t\tquasiquoteDepth++\n", Canary: true},
+			{Name: "rebuild-skips-unexpanded-child", File: "fast/macroexpand.go", Old: "\t\t\tif expanded {\n\t\t\t\tanythingExpanded = true\n\t\t\t}\n\t\t}\n\t\tout.Set(i, child)\n", New: "\t\t\tif expanded {\n\t\t\t\tanythingExpanded = true\n\t\t\t\tout.Set(i, child)\n\t\t\t}\n\t\t}\n", Canary: true},
+			{Name: "macro-args-off-by-one", File: "fast/macroexpand.go", Old: "args[j] = xr.ValueOf(ToNode(ins.Get(i + j + 1)))", New: "args[j] = xr.ValueOf(ToNode(ins.Get(i + j)))"},
+			{Name: "macro-consumes-one-less", File: "fast/macroexpand.go", Old: "\t\ti += argn\n", New: "\t\ti += argn - 1\n"},
+			{Name: "classic-expands-inside-quasiquote", File: "classic/macroexpand.go", Old: "\tif quasiquoteDepth <= 0 {\n\t\tif env.Options", New: "\tif quasiquoteDepth <= 1 {\n\t\tif env.Options"},
+			{Name: "classic-quote-table-differs", File: "classic/macroexpand.go", Old: "\t\t\t// extract the body of QUASIQUOTE\n\t\t\tquasiquoteDepth++\n", New: "\t\t\t// extract the body of QUASIQUOTE\n"},
+		},
+	})
+}
